@@ -125,3 +125,10 @@ check(
     "Hypothesis property-based testing + deterministic sweep; detector/transformer agreement and re-detection via independent semgrep runs",
     "DESIGN.md §3 C18",
 )
+check(
+    "C16", "exploration",
+    "Metamorphic generated search for the 22 hardening codemods: the documented delta of a trigger is the NAME/NUMBER/STRING token difference (strings by value, import lines excluded) the codemod makes on the untransformed harvested trigger, whose exact output the repository's unit tests pin. Variants add positional/keyword/star arguments and trailing commas, nest the site in its own argument, repeat it on a line, change contexts, layouts, quoting, add non-ASCII text, duplicate imports and further sites (deterministic single-feature sweep + random multi-feature batches). On every rewritten variant the tokens added and removed must lie inside the trigger's delta, and a sequence alignment of the non-import tokens must show no token outside the delta deleted, inserted or moved (a reordered argument is a delete+insert).",
+    "Trusted: the bare-trigger run as the definition of the documented delta (cross-checked by hand with core_codemods/docs, DESIGN.md appendix A); tokenize/ast from the stdlib; comments, whitespace, operators and import statements are not compared here.",
+    "Hypothesis property-based metamorphic testing; token-multiset and token-sequence comparison (stdlib tokenize)",
+    "DESIGN.md §3 C16",
+)
